@@ -28,8 +28,10 @@ var Check = &ev.Check{
 		"of every encoding of the small depth-1 value set (quick) / the full depth-1 C02 set plus depth-2 representatives, and every pair of deviations on the small set (thorough). " +
 		"Each input x each of 13 requested types (11 valid, 0, 255; mutants: own type and struct) x {random-access ReadValue+force, Skip over a seeker, Skip and primitive walk over a non-seekable reader under chunkings whole/all-1-byte, " +
 		"and all <=2-cut chunkings with and without zero-length reads when the decode succeeds or the input is <=4 bytes}. A case is (input, type); non-trivial = distinct (input,type) pairs, distinct by construction of the odometer (mutants deduplicated by content hash).",
-	Run:          run,
-	Budget:       func(t string) time.Duration { return map[string]time.Duration{"quick": 4 * time.Minute, "thorough": 28 * time.Minute}[t] },
+	Run: run,
+	Budget: func(t string) time.Duration {
+		return map[string]time.Duration{"quick": 4 * time.Minute, "thorough": 28 * time.Minute}[t]
+	},
 	CaseDeadline: 90 * time.Second,
 	MemLimitKB:   4 << 20,
 	CrashSig: func(kind, desc, stderr string) (string, bool) {
